@@ -7,9 +7,9 @@ export GOCACHE=${GOCACHE:-/verif/.cache/gocache}
 mkdir -p .cache/bin .cache/ovl evidence replays
 ./ovl/gen.sh || exit 1
 rc=0
-grep -vE '^\s*(#|$)' harness/TABLE | awk '{print $2, ($3=="race"?"race":"")}' | sort -u | while read H R; do
+grep -vE '^\s*(#|$)' harness/TABLE | awk '{r="-"; o="overlay.json"; for(i=3;i<=NF;i++){ if($i=="race") r="race"; if($i ~ /^ovl=/) o="overlay-" substr($i,5) ".json" } print $2, r, o}' | sort -u | while read H R O; do
   F=""; S=""; [ "$R" = "race" ] && { F="-race"; S="-race"; }
-  echo "building $H $R" >&2
-  go build $F -tags verif -overlay .cache/ovl/overlay.json -o .cache/bin/$H$S ./harness/$H || echo "BUILD FAILED $H" >&2
+  echo "building $H $R $O" >&2
+  go build $F -tags verif -overlay .cache/ovl/$O -o .cache/bin/$H$S ./harness/$H || echo "BUILD FAILED $H" >&2
 done
 exit 0
